@@ -142,13 +142,17 @@ djb_t *djb_compile(mzd_t *A) {
 void djb_apply_mzd(djb_t *m, mzd_t *W, const mzd_t *V) {
   assert(W->width == V->width);
   rci_t i = m->length;
+  wi_t const last     = W->width - 1;
+  word const mask_end = W->high_bitmask;
   while (i > 0) {
     --i;
-    if (m->srctyp[i] == source_source) {
-      _mzd_combine(mzd_row(W, m->target[i]), mzd_row_const(V, m->source[i]), W->width);
-    } else {
-      _mzd_combine(mzd_row(W, m->target[i]), mzd_row_const(W, m->source[i]), W->width);
-    }
+    word *dst       = mzd_row(W, m->target[i]);
+    word const *src = (m->srctyp[i] == source_source) ? mzd_row_const(V, m->source[i])
+                                                      : mzd_row_const(W, m->source[i]);
+    /* the bits beyond the last column are not part of either operand */
+    word const tail = src[last] & mask_end;
+    if (last) { _mzd_combine(dst, src, last); }
+    dst[last] ^= tail;
   }
 }
 
